@@ -24,6 +24,8 @@ mod syntax;
 mod var;
 
 mod public;
+#[cfg(cormacrelf_incremental_rs_verif)]
+mod verif;
 use boxes::SmallBox;
 pub use public::*;
 
